@@ -177,6 +177,48 @@ CLAIMED = {
             "Bech32 / version-table operators and requires the wallet's network; generated paths must carry its coin type.",
             "The BIP85 block is exempt by design rule (network-free outputs).",
             "DESIGN.md section 5 C16"),
+    "C06": ("TLA+ PaperWallet record-tree model (toy scale, TLC) + TLC trace validation re-deriving every leaf of "
+            "generate()/wasabi_json()/bip85_data() from the source secret with the Bip32/Bip39/Address/ExtKey/KeyCodec specs",
+            "PaperWallet.tla builds the record tree of generate(account, interval) over the toy key tree and TLC checks "
+            "OneRowPerIndexInOrder, RowIsOneKey, PurposeCoinVersionAligned for networks x accounts x intervals (empty, "
+            "single-row, start>end) x masters (non-vacuity: the number of derivable combinations is asserted). Trace_Keys "
+            "recomputes at real scale, from the mnemonic/passphrase or seed alone, the account path/xpub/xprv in the "
+            "purpose's SLIP-132 version and every row (path, address kind of the purpose, compressed SEC, compressed WIF) "
+            "for accounts up to 2^31-1 and intervals up to 2^31, the master echo, the Wasabi key and fingerprint and the nine "
+            "BIP85 entries; the library's JSON rendering is parsed back by TLC's own JSON reader and compared with the tree.",
+            "Rows per purpose are capped (<= 8) to bound Base58 cost; primitive values are oracle tables.",
+            "DESIGN.md section 5 C06"),
+    "C08": ("TLA+ Entropy system model (OS stream, seedable PRNG, histories; TLC + negative-test deviations) + replay of "
+            "TLC-simulated histories on the real library with the OS source wrapped and fed, + TLC trace validation of each New",
+            "Entropy.tla: Reseed / PrngDraw / New over an OS stream whose symbols TLC chooses; EnoughBits, FromOsOnly, "
+            "FreshEachTime, NoPrngInfluence hold over all histories up to the bound and are violated by the two built-in "
+            "deviations (entropy from the seedable generator; one symbol short). Simulated histories are replayed with "
+            "os.urandom/random._urandom wrapped: fed bytes fix the mnemonics regardless of the reseed pattern, every fed bit "
+            "is flipped once per length and every entropy bit (incl. the MSB) must react, the seedable generator's state is "
+            "unchanged, and with the real OS source 100/2000 mnemonics created after resetting the seedable generator to one "
+            "state are pairwise distinct. Each New is also a trace event: OS bits >= 32N/3, sources, checksum validity.",
+            "The mapping from OS bytes to entropy is not constrained; statistical quality of the OS source is out of scope.",
+            "DESIGN.md section 5 C08"),
+    "C15": ("TLA+ PaperWallet model: whitelist filter implies NoSecretLeaf/NoSecretString/PublicPreserved even with a new "
+            "field (TLC) + TLC trace validation decoding EVERY string leaf of the real filtered output",
+            "PaperWallet.tla tags every leaf secret/public by construction and specifies the filter structurally; TLC shows "
+            "the semantic invariants for all trees incl. an extra secret or public field. Trace_Keys takes the unfiltered and "
+            "the filtered dict of paranoia_mode(generate(...)) as leaf lists (every nesting depth) and requires that no "
+            "filtered leaf decodes to a WIF or extended private key payload, looks like a mnemonic, equals or contains a "
+            "secret string of the unfiltered tree, and that the public leaves are identical with identical pointers.",
+            "Secrets shorter than 8 characters are compared by equality only; the CLI path is covered by C20.",
+            "DESIGN.md section 5 C15"),
+    "C20": ("TLA+ Cli system model (argument-vector witness classes x file-system states, TLC) + execution of the "
+            "concretised vectors in-process and as subprocesses, each observation judged by Trace_Cli.tla",
+            "Cli.tla models parse -> build -> generate -> filter -> emit over witness classes on both sides of every "
+            "validator bound and eight file-path states; TLC checks FailureIsSilent, SuccessEqualsApi, NeverOverwrite, "
+            "Bip44Shaped on all 5 244 vectors. The same vectors are concretised and run against main() (runpy, fresh "
+            "directory, write-opens logged) and `python -m btc_hd_wallet`; Trace_Cli evaluates the model's predicates on "
+            "exit status, stdout class, directory before/after, emitted JSON vs the library API (filtered by the spec's "
+            "whitelist under --paranoia) and parses every row path with PathGrammar.tla.",
+            "Which values must be accepted is not constrained; intervals spanning > 64 indexes are not executed; "
+            "'parent not writable' is unreachable as root.",
+            "DESIGN.md section 5 C20"),
 }
 
 ALL = ["C%02d" % i for i in range(1, 21)]
